@@ -1,0 +1,24 @@
+// Copyright 2024 Democratized Data Foundation
+//
+// Use of this software is governed by the Business Source License
+// included in the file licenses/BSL.txt.
+//
+// As of the Change Date specified in that file, in accordance with
+// the Business Source License, use of this software will be governed
+// by the Apache License, Version 2.0, included in the file
+// licenses/APL.txt.
+
+//go:build verif
+
+package db
+
+// VerifGate, when set by the external verification harness, is called at the named points
+// of the merge path. It may block (to hold the goroutine at that point) and it may record
+// the event. It is nil unless a harness installs it.
+var VerifGate func(point string, db *DB, key string)
+
+func verifGate(point string, db *DB, key string) {
+	if gate := VerifGate; gate != nil {
+		gate(point, db, key)
+	}
+}
